@@ -66,14 +66,18 @@ type peer struct {
 	cli     wamp.Peer
 	sendq   chan wamp.Message
 	stall   chan struct{}
+	stop    chan struct{} // closed before the harness closes the transport
 	resume  chan struct{}
 	mu      sync.Mutex
 	inbox   []stamped
 	dropped bool
+	lastInv  wamp.ID // last invocation id received (hostile scenarios)
+	lastCall wamp.ID // last call request sent
 	subReq  map[wamp.ID]subInfo
 	subs    map[wamp.ID]subInfo
 	callReq map[wamp.ID]string
 	joined  bool
+	tainted bool // offender or its partner in a hostile scenario: not observed
 	realm   int
 	local   bool
 	gone    bool // the router closed the transport
@@ -278,6 +282,9 @@ func (x *Exec) emit(ev Event) {
 	if ev.Bind.Hp == nil {
 		ev.Bind.Hp = []int{}
 	}
+	if ev.Bind.Closed == nil {
+		ev.Bind.Closed = []string{}
+	}
 	ev.In = normInput(ev.In)
 	ev.Cfg = normCfg(ev.Cfg)
 	if err := x.enc.Encode(ev); err != nil {
@@ -335,12 +342,14 @@ func (x *Exec) newPeer(name string, j Join) *peer {
 		name: name, cli: cli,
 		sendq:   make(chan wamp.Message, 1024),
 		stall:   make(chan struct{}),
+		stop:    make(chan struct{}),
 		resume:  make(chan struct{}),
 		subReq:  map[wamp.ID]subInfo{},
 		subs:    map[wamp.ID]subInfo{},
 		callReq: map[wamp.ID]string{},
 	}
 	p.realm = x.idx
+	p.tainted = j.Color == "tainted"
 	x.peers[name] = p
 	x.order = append(x.order, name)
 	var rp wamp.Peer = rtr
@@ -387,9 +396,13 @@ func (x *Exec) newPeer(name string, j Join) *peer {
 			case m := <-p.sendq:
 				select {
 				case cli.Send() <- m:
+				case <-p.stop:
+					return
 				case <-x.quit:
 					return
 				}
+			case <-p.stop:
+				return
 			case <-x.quit:
 				return
 			}
@@ -616,6 +629,7 @@ func (x *Exec) step(sc *Scenario, in Input) {
 		}
 		a, kw := payload(in.Tag)
 		p.callReq[req] = string(uri)
+		p.lastCall = req
 		p.send(&wamp.Call{Request: req, Options: opts, Procedure: uri, Arguments: a, ArgumentsKw: kw})
 	case "cancel":
 		if !live {
@@ -660,8 +674,7 @@ func (x *Exec) step(sc *Scenario, in Input) {
 		default: // "lost"
 			in.How = "lost"
 			synctest.Wait()
-			p.dropped = true
-			p.cli.Close()
+			p.drop()
 		}
 	case "metacall":
 		if !live {
@@ -671,6 +684,8 @@ func (x *Exec) step(sc *Scenario, in Input) {
 		args, kw := x.metaArgs(in)
 		p.callReq[req] = string(uri)
 		p.send(&wamp.Call{Request: req, Options: wamp.Dict{}, Procedure: uri, Arguments: args, ArgumentsKw: kw})
+	case "hostile":
+		x.hostile(in)
 	case "advance":
 		time.Sleep(time.Duration(in.Ms) * time.Millisecond)
 	case "snap":
@@ -920,6 +935,7 @@ func (x *Exec) abstract(p *peer, s stamped) Msg {
 		return x.abstractEvent(p, m, s.t)
 	case *wamp.Invocation:
 		r := blank("INVOCATION", s.t)
+		p.lastInv = m.Request
 		r.Req = int(x.chk(m.Request))
 		r.A = x.regC.of(x.chk(m.Registration))
 		if pr, ok := wamp.AsString(m.Details["procedure"]); ok {
@@ -1082,6 +1098,9 @@ func (x *Exec) collect(in Input) ([][]SessOut, []Bind) {
 			}
 			if m.K == "CLOSED" {
 				p.gone = true
+				if p.tainted {
+					b.Closed = append(b.Closed, name)
+				}
 			}
 			if p.realm != in.R {
 				continue
@@ -1124,7 +1143,9 @@ func (x *Exec) collect(in Input) ([][]SessOut, []Bind) {
 				}
 			}
 		}
-		outs[p.realm] = append(outs[p.realm], so)
+		if !p.tainted {
+			outs[p.realm] = append(outs[p.realm], so)
+		}
 	}
 	x.realmCtx = x.realms[in.R]
 	return outs, binds
@@ -1479,4 +1500,280 @@ func (t *tableAuthorizer) Authorize(sess *wamp.Session, msg wamp.Message) (bool,
 		return true, nil
 	}
 	return true, nil
+}
+
+// ---------------------------------------------------------------------------
+// C04: hostile client messages
+
+var hostileSeq uint64
+
+type unknownMsg struct{}
+
+func (unknownMsg) MessageType() wamp.MessageType { return wamp.MessageType(9999) }
+
+func hostileValue(kind string) any {
+	switch kind {
+	case "null":
+		return nil
+	case "zero":
+		return 0
+	case "neg":
+		return -1
+	case "big":
+		return int64(1<<53 + 1)
+	case "float":
+		return 1.5
+	case "str":
+		return "x"
+	case "empty":
+		return ""
+	case "bytes":
+		return []byte{0xff, 0x00, 0x80}
+	case "true":
+		return true
+	case "list":
+		return wamp.List{1, "a", nil}
+	case "dict":
+		return wamp.Dict{"a": 1, "": nil}
+	case "nested":
+		var v any = wamp.Dict{}
+		for i := 0; i < 40; i++ {
+			v = wamp.List{wamp.Dict{"n": v}}
+		}
+		return v
+	case "uri":
+		return wamp.URI("a..b c#")
+	}
+	return nil
+}
+
+func hostileID(kind string) wamp.ID {
+	switch kind {
+	case "zero", "null", "empty":
+		return 0
+	case "big":
+		return wamp.ID(1<<53 + 1)
+	case "neg":
+		return wamp.ID(^uint64(0))
+	case "float", "true":
+		return 1
+	}
+	return wamp.ID(777777)
+}
+
+func hostileURI(kind string) wamp.URI {
+	switch kind {
+	case "null", "empty", "zero":
+		return ""
+	case "uri":
+		return "a..b c#"
+	case "nested", "list":
+		return wamp.URI(strings.Repeat("h.", 3000) + "x")
+	case "bytes":
+		return wamp.URI([]byte{0xff, 0xfe, '.', 0x00})
+	}
+	return "h.other"
+}
+
+// hostileMessage builds the message of a mutant. inv is a live invocation id
+// of the sender (0 if none), call a pending call request of the sender.
+func hostileMessage(mu Mutant, inv, call wamp.ID) wamp.Message {
+	v := hostileValue(mu.Kind)
+	opt := func(base wamp.Dict) wamp.Dict {
+		if mu.Pos != "none" && mu.Pos != "request" && mu.Pos != "args" && mu.Pos != "kwargs" {
+			base[mu.Pos] = v
+		}
+		return base
+	}
+	hostileSeq++
+	req := wamp.ID(900000 + hostileSeq)
+	if mu.Pos == "request" {
+		req = hostileID(mu.Kind)
+	}
+	args := wamp.List{"h"}
+	kw := wamp.Dict{"k": "h"}
+	if mu.Pos == "args" {
+		if l, ok := v.(wamp.List); ok {
+			args = l
+		} else {
+			args = wamp.List{v}
+		}
+	}
+	if mu.Pos == "kwargs" {
+		if d, ok := v.(wamp.Dict); ok {
+			kw = d
+		} else {
+			kw = wamp.Dict{"v": v, "": v}
+		}
+	}
+	switch mu.T {
+	case "HELLO":
+		d := helloDetails(Join{Authid: "hostile", Local: true})
+		switch mu.Pos {
+		case "roles.callee":
+			d["roles"].(wamp.Dict)["callee"] = v
+		case "roles.callee.features":
+			d["roles"].(wamp.Dict)["callee"] = wamp.Dict{"features": v}
+		case "none":
+		default:
+			d[mu.Pos] = v
+		}
+		return &wamp.Hello{Realm: realmName(0), Details: d}
+	case "PUBLISH":
+		o := wamp.Dict{"acknowledge": true}
+		if strings.HasPrefix(mu.Pos, "ppt_") && mu.Pos != "ppt_scheme" {
+			o["ppt_scheme"] = "mqtt"
+		}
+		return &wamp.Publish{Request: req, Options: opt(o), Topic: "h.t", Arguments: args, ArgumentsKw: kw}
+	case "SUBSCRIBE":
+		return &wamp.Subscribe{Request: req, Options: opt(wamp.Dict{}), Topic: "h.t2"}
+	case "UNSUBSCRIBE":
+		id := wamp.ID(777777)
+		if mu.Pos == "subscription" {
+			id = hostileID(mu.Kind)
+		}
+		return &wamp.Unsubscribe{Request: req, Subscription: id}
+	case "REGISTER":
+		return &wamp.Register{Request: req, Options: opt(wamp.Dict{}), Procedure: "h.proc2"}
+	case "UNREGISTER":
+		id := wamp.ID(777777)
+		if mu.Pos == "registration" {
+			id = hostileID(mu.Kind)
+		}
+		return &wamp.Unregister{Request: req, Registration: id}
+	case "CALL":
+		o := wamp.Dict{}
+		if strings.HasPrefix(mu.Pos, "ppt_") && mu.Pos != "ppt_scheme" {
+			o["ppt_scheme"] = "mqtt"
+		}
+		return &wamp.Call{Request: req, Options: opt(o), Procedure: "h.proc", Arguments: args, ArgumentsKw: kw}
+	case "CANCEL":
+		r := call
+		if mu.Pos == "request" {
+			r = hostileID(mu.Kind)
+		}
+		return &wamp.Cancel{Request: r, Options: opt(wamp.Dict{})}
+	case "YIELD":
+		r := inv
+		if mu.Pos == "request" {
+			r = hostileID(mu.Kind)
+		}
+		o := wamp.Dict{}
+		if strings.HasPrefix(mu.Pos, "ppt_") && mu.Pos != "ppt_scheme" {
+			o["ppt_scheme"] = "mqtt"
+		}
+		return &wamp.Yield{Request: r, Options: opt(o), Arguments: args, ArgumentsKw: kw}
+	case "ERROR":
+		e := &wamp.Error{Type: wamp.INVOCATION, Request: inv, Details: wamp.Dict{}, Error: "h.error", Arguments: args, ArgumentsKw: kw}
+		switch mu.Pos {
+		case "type":
+			e.Type = wamp.MessageType(hostileID(mu.Kind) % 100000)
+		case "request":
+			e.Request = hostileID(mu.Kind)
+		case "details":
+			if d, ok := v.(wamp.Dict); ok {
+				e.Details = d
+			} else {
+				e.Details = nil
+			}
+		}
+		return e
+	case "GOODBYE":
+		g := &wamp.Goodbye{Reason: wamp.CloseRealm, Details: wamp.Dict{}}
+		if mu.Pos == "reason" {
+			g.Reason = hostileURI(mu.Kind)
+		}
+		if mu.Pos == "details" {
+			if d, ok := v.(wamp.Dict); ok {
+				g.Details = d
+			} else {
+				g.Details = nil
+			}
+		}
+		return g
+	case "AUTHENTICATE":
+		a := &wamp.Authenticate{Signature: "sig", Extra: wamp.Dict{}}
+		if mu.Pos == "signature" {
+			a.Signature = fmt.Sprint(v)
+		}
+		if mu.Pos == "extra" {
+			if d, ok := v.(wamp.Dict); ok {
+				a.Extra = d
+			} else {
+				a.Extra = nil
+			}
+		}
+		return a
+	case "WELCOME":
+		return &wamp.Welcome{ID: 1, Details: wamp.Dict{}}
+	case "ABORT":
+		return &wamp.Abort{Reason: "h.abort", Details: nil}
+	case "CHALLENGE":
+		return &wamp.Challenge{AuthMethod: "ticket"}
+	case "PUBLISHED":
+		return &wamp.Published{Request: 1, Publication: 1}
+	case "SUBSCRIBED":
+		return &wamp.Subscribed{Request: 1, Subscription: 1}
+	case "UNSUBSCRIBED":
+		return &wamp.Unsubscribed{Request: 1}
+	case "EVENT":
+		return &wamp.Event{Subscription: 1, Publication: 1}
+	case "REGISTERED":
+		return &wamp.Registered{Request: 1, Registration: 1}
+	case "UNREGISTERED":
+		return &wamp.Unregistered{Request: 1}
+	case "RESULT":
+		return &wamp.Result{Request: call}
+	case "INVOCATION":
+		return &wamp.Invocation{Request: 1, Registration: 1}
+	case "INTERRUPT":
+		return &wamp.Interrupt{Request: inv}
+	}
+	return unknownMsg{}
+}
+
+// hostile sends the mutant from the offender named in the step (or from a
+// fresh peer in the prehello phase).
+func (x *Exec) hostile(in Input) {
+	mu := in.Hm
+	p := x.peers[in.S]
+	var inv, call wamp.ID
+	if p != nil {
+		inv, call = p.lastInv, p.lastCall
+	}
+	msg := hostileMessage(mu, inv, call)
+	switch mu.Phase {
+	case "prehello":
+		q := x.newPeer(in.S+"pre", Join{Color: "tainted", Local: true})
+		q.send(msg)
+		synctest.Wait()
+		q.drop()
+		return
+	case "aftergoodbye":
+		if p == nil || p.dropped {
+			return
+		}
+		p.send(&wamp.Goodbye{Reason: wamp.CloseRealm, Details: wamp.Dict{}})
+		p.send(msg)
+	default:
+		if p == nil || p.dropped {
+			return
+		}
+		p.send(msg)
+	}
+	if mu.Drop {
+		synctest.Wait()
+		p.drop()
+	}
+}
+
+// drop closes the client side of the transport abruptly.
+func (p *peer) drop() {
+	if p.dropped {
+		return
+	}
+	p.dropped = true
+	close(p.stop)
+	synctest.Wait()
+	p.cli.Close()
 }
